@@ -170,6 +170,46 @@ func c19Run(w *verifrt.World, tier Tier) *RunResult {
 	return c19Concurrent(w, tier)
 }
 
+// c19Drive performs the canonical call sequence up to (not including)
+// ProcessLogging, stopping at the first interruption, and returns the response
+// status if the response headers phase was reached with the engine not Off.
+func c19Drive(tx types.Transaction, s *TxScript) (status string) {
+	tx.ProcessConnection("10.1.1.1", 1111, "10.0.0.1", 80)
+	tx.ProcessURI(s.URI, s.Method, "HTTP/1.1")
+	for _, hd := range s.Headers {
+		tx.AddRequestHeader(hd.K, hd.V)
+	}
+	if s.ContentType != "" {
+		tx.AddRequestHeader("Content-Type", s.ContentType)
+	}
+	done := tx.ProcessRequestHeaders() != nil
+	if !done && s.BodyKind != "" {
+		it, _, _ := tx.WriteRequestBody(s.Body)
+		done = it != nil
+	}
+	if !done {
+		it, _ := tx.ProcessRequestBody()
+		done = it != nil
+	}
+	if !done {
+		for _, hd := range s.RespHeaders {
+			tx.AddResponseHeader(hd.K, hd.V)
+		}
+		done = tx.ProcessResponseHeaders(s.RespStatus, "HTTP/1.1") != nil
+		if !tx.IsRuleEngineOff() {
+			status = fmt.Sprint(s.RespStatus)
+		}
+	}
+	if !done && len(s.RespBody) > 0 {
+		it, _, _ := tx.WriteResponseBody(s.RespBody)
+		done = it != nil
+	}
+	if !done {
+		tx.ProcessResponseBody()
+	}
+	return status
+}
+
 // ---------------------------------------------------------------- part 1
 
 func c19Table(w *verifrt.World, tier Tier) *RunResult {
@@ -202,6 +242,13 @@ func c19Table(w *verifrt.World, tier Tier) *RunResult {
 		return res
 	}
 	defer h.Close()
+	var twin *wafHandle
+	if cfg.Engine == "DetectionOnly" && !strings.Contains(text, "allow") && !strings.Contains(text, "block") {
+		if th, err := buildWAF(strings.Replace(strings.Replace(text, "SecRuleEngine DetectionOnly", "SecRuleEngine On", 1), "SecAuditEngine "+sc.Engine, "SecAuditEngine Off", 1)); err == nil {
+			twin = th
+			defer th.Close()
+		}
+	}
 	spec := map[int]*RuleSpec{}
 	for i := range cfg.Rules {
 		spec[cfg.Rules[i].ID] = &cfg.Rules[i]
@@ -215,39 +262,7 @@ func c19Table(w *verifrt.World, tier Tier) *RunResult {
 		engineOff := false
 		pan := safely(func() {
 			tx = h.WAF.NewTransactionWithID(s.ID)
-			tx.ProcessConnection("10.1.1.1", 1111, "10.0.0.1", 80)
-			tx.ProcessURI(s.URI, s.Method, "HTTP/1.1")
-			for _, hd := range s.Headers {
-				tx.AddRequestHeader(hd.K, hd.V)
-			}
-			if s.ContentType != "" {
-				tx.AddRequestHeader("Content-Type", s.ContentType)
-			}
-			done := tx.ProcessRequestHeaders() != nil
-			if !done && s.BodyKind != "" {
-				it, _, _ := tx.WriteRequestBody(s.Body)
-				done = it != nil
-			}
-			if !done {
-				it, _ := tx.ProcessRequestBody()
-				done = it != nil
-			}
-			if !done {
-				for _, hd := range s.RespHeaders {
-					tx.AddResponseHeader(hd.K, hd.V)
-				}
-				done = tx.ProcessResponseHeaders(s.RespStatus, "HTTP/1.1") != nil
-				if !tx.IsRuleEngineOff() {
-					status = fmt.Sprint(s.RespStatus)
-				}
-			}
-			if !done && len(s.RespBody) > 0 {
-				it, _, _ := tx.WriteResponseBody(s.RespBody)
-				done = it != nil
-			}
-			if !done {
-				tx.ProcessResponseBody()
-			}
+			status = c19Drive(tx, s)
 			tx.ProcessLogging()
 			for _, mr := range tx.MatchedRules() {
 				fired = append(fired, mr.Rule().ID())
@@ -258,6 +273,23 @@ func c19Table(w *verifrt.World, tier Tier) *RunResult {
 				status = fmt.Sprint(itx.DetectionOnlyInterruption().Status)
 			}
 			engineOff = tx.IsRuleEngineOff()
+			if twin != nil {
+				// DetectionOnly: the would-be status is what the same transaction
+				// gets with the engine On - decided by a twin WAF, not by what the
+				// transaction under test remembers
+				ttx := twin.WAF.NewTransactionWithID(s.ID + "-twin")
+				tst := c19Drive(ttx, s)
+				ttx.ProcessLogging() // a disruptive rule of the logging phase counts too
+				if it := ttx.Interruption(); it != nil {
+					tst = fmt.Sprint(it.Status)
+				}
+				ttx.Close()
+				if tst != status {
+					res.count("would_be_status_from_twin_differs", 1)
+				}
+				status = tst
+				res.count("would_be_status_from_twin", 1)
+			}
 		})
 		if pan != "" {
 			res.fail("C19", "panic", panicSite(pan), "transaction %s panicked: %s\nconfiguration:\n%s", s.ID, pan, text)
@@ -594,7 +626,7 @@ func init() {
 		Runs:       [2]int{8000, 600000},
 		MaxSeconds: [2]int{120, 1700},
 		Rule: "one run is either (part 1, 60%) a decision-table scenario: generated rules with log|nolog|auditlog|noauditlog combinations, chains, interruptions, On|DetectionOnly, audit engine On|RelevantOnly|Off optionally switched by ctl:auditEngine, relevant-status pattern, parts (optionally changed by ctl:auditLogParts), Native|JSON format, headers with newlines / boundary look-alikes / non-UTF-8, 1-3 transactions on a recording writer registered through the plugin API; " +
-			"checked: exactly one record iff engine On or (RelevantOnly and real / would-be / response status matches), record well-formed (JSON: one parseable line carrying the id; Native: one marker per configured part with one boundary), rules listed under part K = fired audit-enabled rules, error callback once per fired rule with logging enabled; " +
+			"checked: exactly one record iff engine On or (RelevantOnly and real / would-be / response status matches; in DetectionOnly the would-be status is decided by a twin WAF that runs the same transaction with the engine On, not read from the transaction under test), record well-formed (JSON: one parseable line carrying the id; Native: one marker per configured part with one boundary), rules listed under part K = fired audit-enabled rules, error callback once per fired rule with logging enabled; " +
 			"or (part 2, 40%) 2-6 simulated tasks finishing 1-3 transactions each on one WAF whose real serial or concurrent writer (real log.Logger) writes to the simulated disk, under the seeded scheduler with statement-level yields inside the writers and a simulated clock jumping across minute and day boundaries; " +
 			"checked: serial log = whole JSON lines, every transaction exactly once; concurrent writer = one intact file per transaction at the path derived from its timestamp and id, one index entry each, entries not interleaved; race detector silent. non-trivial = part 1 always, part 2 with at least one context switch; distinct = scenario hash",
 		Assumptions: []string{"RelevantOnly is only generated with a relevant-status pattern (the statement does not define the case without)", "the parts algebra of ctl:auditLogParts is not modelled: well-formedness is checked against the parts the record itself declares",
